@@ -199,12 +199,13 @@ Theorem C06_res_loop_unroll : forall cb g f c,
   rs_res_loop cb g (S f) false c = match bd_rs_iter cb g c with inl r => r | inr c' => rs_res_loop cb g f false c' end.
 Proof. exact bd_rs_loop_unroll. Qed.
 
-(* (3a) response twin of the line assembly: the additional premise bd_suffixes_ok says that the look-ahead
-   data_probe_chunk_length cannot answer "not a chunk length" on any piece a TCP cut can produce (see K1 below);
+(* (3a) response twin of the line assembly. Since the repair of finding K1 the look-ahead data_probe_chunk_length scans
+   out_buf ++ the unconsumed bytes, i.e. a prefix of the WHOLE line, so a line with a valid value passes it whatever the
+   TCP cuts (PBodyResChunked.bd_value_scan): no premise about the cut positions or the extension is needed any more;
    0 <= v excludes the "-1004 empty line" and the invalid-length paths *)
 Theorem C06_line_assembly_res : forall cb g o rem c lrest rest t,
   bd_rs_inv o c -> c_out_state c = RES_BODY_CHUNKED_LENGTH -> k_consume (c_out c) = k_read (c_out c) ->
-  bd_rs_rest c ++ concat rem = lrest ++ LF :: rest -> bd_no_lf lrest = true -> bd_suffixes_ok lrest = true ->
+  bd_rs_rest c ++ concat rem = lrest ++ LF :: rest -> bd_no_lf lrest = true ->
   (length (bd_rs_pending c) + length lrest + 1 <= g_field_limit_hard g)%nat ->
   Forall (fun d => d <> []) rem -> tx_slot c o = Some t ->
   let line := bd_rs_pending c ++ lrest ++ [LF] in
@@ -226,12 +227,12 @@ Theorem C06_line_assembly_res : forall cb g o rem c lrest rest t,
 Proof. intros cb g. exact (bd_rs_line_assembly cb g). Qed.
 Print Assumptions C06_line_assembly_res.
 
-(* (3b) chunked decode(encode), response side, under bd_res_chunk_ok (= bd_chunk_ok + bd_res_line_ok) *)
+(* (3b) chunked decode(encode), response side: same premises as on the request side (the size lines are not chomped) *)
 Theorem C06_chunked_decode_encode_res_partial : forall cb g, (forall n, cb H_RESPONSE_BODY_DATA n = CB_OK) ->
   forall o ks rem c last rest t,
   bd_rs_inv o c -> bd_rs_clean c -> c_out_state c = RES_BODY_CHUNKED_LENGTH ->
-  Forall (fun k => bd_res_chunk_ok k = true) ks ->
-  bd_last_ok bd_rs_line_value last = true -> bd_res_line_ok last = true ->
+  Forall (fun k => bd_chunk_ok bd_rs_line_value k = true) ks ->
+  bd_last_ok bd_rs_line_value last = true ->
   bd_lines_fit (g_field_limit_hard g) ks last = true ->
   bd_rs_rest c ++ concat rem = bd_chunks_wire ks ++ last ++ rest ->
   Forall (fun d => d <> []) rem -> tx_slot c o = Some t ->
@@ -266,7 +267,7 @@ Definition C06_ex_chunks : list bd_chunk :=
 Example C06_chunk_premises_nonvacuous :
   forallb (bd_chunk_ok bd_rq_line_value) C06_ex_chunks = true /\ bd_last_ok bd_rq_line_value bd_last_line = true /\
   bd_lines_fit (g_field_limit_hard C06_ex_g) C06_ex_chunks bd_last_line = true /\
-  forallb bd_res_chunk_ok C06_ex_chunks = true.
+  forallb (bd_chunk_ok bd_rs_line_value) C06_ex_chunks = true.
 Proof. vm_compute. repeat split. Qed.
 (* the response parser after the header block of a chunked response: the state the response theorems start from *)
 Definition C06_ex_c0_res : connp :=
@@ -276,7 +277,7 @@ Definition C06_ex_c0_res : connp :=
          (fst (connp_req_data C06_ex_cb C06_ex_g (Some rq) (length rq) (connp_open connp_new)))).
 Example C06_premises_reachable_res :
   bd_rs_invb 0 C06_ex_c0_res = true /\ bd_rs_cleanb C06_ex_c0_res = true /\ c_out_state C06_ex_c0_res = RES_BODY_CHUNKED_LENGTH /\
-  bd_res_line_ok bd_last_line = true /\ bd_last_ok bd_rs_line_value bd_last_line = true.
+  bd_last_ok bd_rs_line_value bd_last_line = true.
 Proof. vm_compute. repeat split. Qed.
 (* the encoder of DESIGN Appendix A produces such chunks *)
 Example C06_encoder_chunk_ok :
@@ -295,8 +296,6 @@ Example C06_example_run :
 Proof. vm_compute. repeat split. Qed.
 
 (* ------------------------------------------------------------------ refutations (faithful model = unchanged library) *)
-(* K1: response side, a chunk extension that a TCP cut splits so that 8 or more of its bytes start a segment: the
-   look-ahead data_probe_chunk_length ends the size line early; 'abc' was sent, 'ue1' and '0 CR LF CR LF' are delivered *)
 Definition C06_ex_req : bytes := bd_lines ["GET /1 HTTP/1.1"; "Host: a"; ""].
 Definition C06_ex_res_head : bytes := bd_lines ["HTTP/1.1 200 OK"; "Transfer-Encoding: chunked"; ""].
 Definition C06_ex_res_body : bytes := bd_lines ["3;name=value12345"; "abc"; "0"; ""].
@@ -304,11 +303,6 @@ Definition C06_res_run (cuts : list bytes) : connp * list cp_result :=
   cp_run C06_ex_cb C06_ex_g connp_new ((OpOpen :: OpReqData C06_ex_req :: map OpResData cuts) ++ [OpClose])%list.
 Definition C06_res_delivered (cuts : list bytes) : bytes :=
   bd_log_delivered H_RESPONSE_BODY_DATA (map r_events (snd (C06_res_run cuts))).
-Example C06_chunked_res_ext_refuted :
-  C06_res_delivered [C06_ex_res_head +++ C06_ex_res_body] = bd_str "abc" /\
-  C06_res_delivered [C06_ex_res_head +++ firstn 2 C06_ex_res_body; skipn 2 C06_ex_res_body] = bd_str "ue1" +++ bd_lines ["0"; ""] /\
-  bd_res_line_ok (bd_lines ["3;name=value12345"]) = false.
-Proof. vm_compute. repeat split. Qed.
 (* K2: response side, invalid chunk length (2^31): the parser falls back to a close-delimited body but has already
    added the line to response_message_len (13 wire bytes, 23 reported); when a piece of the line was buffered from an
    earlier call those bytes are delivered twice (19 bytes delivered for 13 on the wire) *)
@@ -326,4 +320,15 @@ Example C06_msglen_empty_chunk_lines_fixed :
   C06_res_lens [C06_ex_res_head +++ body] = Some (15, 3) /\
   C06_res_lens [C06_ex_res_head; body] = Some (15, 3) /\
   C06_res_lens [C06_ex_res_head +++ firstn 3 body; skipn 3 body] = Some (15, 3).
+Proof. vm_compute. repeat split. Qed.
+(* regression of the repaired finding K1 (response chunk-extension look-ahead): a TCP cut that leaves 8 or more extension
+   bytes at the start of a segment used to end the size line early ('ue1' and '0 CR LF CR LF' delivered instead of 'abc');
+   now every cut decodes to 'abc' with sel = 3, sml = 27 -- although the line violates the old premise bd_res_line_ok *)
+Example C06_chunked_res_ext_fixed :
+  C06_res_delivered [C06_ex_res_head +++ C06_ex_res_body] = bd_str "abc" /\
+  C06_res_delivered [C06_ex_res_head +++ firstn 2 C06_ex_res_body; skipn 2 C06_ex_res_body] = bd_str "abc" /\
+  C06_res_lens [C06_ex_res_head +++ firstn 2 C06_ex_res_body; skipn 2 C06_ex_res_body] = Some (27, 3) /\
+  forallb (fun k => Z.eqb (Z.of_nat (length (C06_res_delivered [C06_ex_res_head +++ firstn k C06_ex_res_body; skipn k C06_ex_res_body]))) 3)
+          (seq 1 (length C06_ex_res_body - 1)) = true /\
+  bd_res_line_ok (bd_lines ["3;name=value12345"]) = false.
 Proof. vm_compute. repeat split. Qed.
